@@ -14,11 +14,11 @@ def run(res, only=None):
     stride = "4" if res.tier == "quick" else "1"
     expect = ["add", "cross", "transpose", "inverse", "cmpeq", "not", "select", "mat_mul_vec3a",
               "transform_point3a", "mul_a", "inject", "inject_m", "inject_a", "min", "quat_mul"]
+    core.replay_bin(res, "hid", cases, cfgs, env_extra={"HX_STRIDE": stride, "VERIF_SEED": str(res.seed), "HX_PTRACE": os.path.join(wd, "payload.%CFG%.ndjson")},
+                    expect_ops=expect)
     for cfg in cfgs:
-        tr = os.path.join(wd, f"payload.{cfg}.ndjson")
-        core.replay_bin(res, "hid", cases, [cfg], env_extra={"HX_STRIDE": stride, "VERIF_SEED": str(res.seed), "HX_PTRACE": tr}, expect_ops=expect)
         # the decision: TLC consumes one event per (program, payload, step) and accepts iff the observation digest never depends on the payload
-        core.validate_trace(res, "Trace_C08", tr, cfg, cfg=cfg)
+        core.validate_trace(res, "Trace_C08", os.path.join(wd, f"payload.{cfg}.ndjson"), cfg, cfg=cfg)
     res.rule = ("TLC enumerates every well-typed program of two steps over 99 operations x register choices of the typed register "
                 "machine (Vec3A, Mat3A, Affine3A, BVec3A registers, all initially injected); each program (1/4 stride in quick, all "
                 "in thorough) is executed once per hidden payload {copy of z, 0, 0.5, MAX, +-inf, qNaN, sNaN, all-ones, -0, subnormal, "
